@@ -33,67 +33,141 @@ fn problems() -> Vec<(Prob, f64)> {
 // between, in the same process and thread.  Every ordered pair (i, j) of a small alphabet of calls is executed in a
 // fresh child process as the sequence i, j, i; the child prints a fingerprint of each result.
 
-fn seq_calls() -> Vec<(String, Prob, Cfg)> {
+/// a call of the alphabet: label, problem, configuration, mass kind (0 = none, 1 = the full 2x2 mass [[2,1],[1,3]])
+fn seq_calls() -> Vec<(String, Prob, Cfg, usize)> {
     let mut v = vec![];
     for m in M6 {
         // scenario 0: scalar decay, forward
         let p = base(Base::Decay(-1.0));
         let mut c = Cfg::new(m, 0.0, 1.0, &p.y0).tol(1e-6, 1e-8);
         c.user_jac = true;
-        v.push((format!("{} decay n=1 forward", mname(m)), p, c));
+        v.push((format!("{} decay n=1 forward", mname(m)), p, c, 0));
         // scenario 1: oscillator, dense output, looser tolerance
         let p = base(Base::Harmonic(2.0));
         let mut c = Cfg::new(m, 0.0, 2.0, &p.y0).tol(1e-4, 1e-6);
         c.user_jac = true;
         c.dense = true;
-        v.push((format!("{} harmonic n=2 forward dense", mname(m)), p, c));
+        v.push((format!("{} harmonic n=2 forward dense", mname(m)), p, c, 0));
         // scenario 2: three components, backward, requested times, differenced Jacobian
         let p = reflect(&base(Base::Lin3));
         let mut c = Cfg::new(m, 0.0, -1.5, &p.y0).tol(1e-8, 1e-10);
         c.t_eval = Some((0..=6).map(|i| -1.5 * i as f64 / 6.0).collect());
-        v.push((format!("{} lin3 n=3 backward t_eval", mname(m)), p, c));
+        v.push((format!("{} lin3 n=3 backward t_eval", mname(m)), p, c, 0));
         // scenario 3: nonlinear scalar with events and a large state scale
         let p0 = base(Base::Logistic(2.0));
         let mut c = Cfg::new(m, 0.5, 2.0, &p0.y0).tol(1e-5, 1e-7);
         c.events = vec![EventSpec::new(EvKind::Y(0, 0.8)), EventSpec::new(EvKind::T(1.3)).dir(Direction::Positive)];
         c.first_step = if m == Method::RK4 { Some(0.03) } else { None };
-        v.push((format!("{} logistic n=1 events", mname(m)), p0.clone(), c.clone()));
+        v.push((format!("{} logistic n=1 events", mname(m)), p0.clone(), c.clone(), 0));
         // scenario 4: the same with the first event terminal
         let mut c4 = c.clone();
         c4.events[0].terminal = Some(1);
-        v.push((format!("{} logistic n=1 first event terminal", mname(m)), p0.clone(), c4));
+        v.push((format!("{} logistic n=1 first event terminal", mname(m)), p0.clone(), c4, 0));
         // scenario 5 / 6: the oscillator with 13 requested times, and with 3
         let p = base(Base::Harmonic(2.0));
         let mut c5 = Cfg::new(m, 0.0, 2.0, &p.y0).tol(1e-4, 1e-6);
         c5.user_jac = true;
         c5.t_eval = Some((0..=12).map(|i| 2.0 * i as f64 / 12.0).collect());
-        v.push((format!("{} harmonic n=2 t_eval(13)", mname(m)), p.clone(), c5.clone()));
+        v.push((format!("{} harmonic n=2 t_eval(13)", mname(m)), p.clone(), c5.clone(), 0));
         let mut c6 = c5.clone();
         c6.t_eval = Some(vec![0.4, 1.0, 1.6]);
-        v.push((format!("{} harmonic n=2 t_eval(3)", mname(m)), p.clone(), c6));
+        v.push((format!("{} harmonic n=2 t_eval(3)", mname(m)), p.clone(), c6, 0));
         // scenario 7: the oscillator from the same initial data under a small max_step, dense
         let mut c7 = Cfg::new(m, 0.0, 2.0, &p.y0).tol(1e-4, 1e-6);
         c7.user_jac = true;
         c7.max_step = Some(0.01);
         c7.dense = true;
-        v.push((format!("{} harmonic n=2 max_step 0.01", mname(m)), p.clone(), c7));
+        v.push((format!("{} harmonic n=2 max_step 0.01", mname(m)), p.clone(), c7, 0));
         // scenario 8: three components with a banded Jacobian storage (the band holds everything)
         let p3 = base(Base::Lin3);
         let mut c8 = Cfg::new(m, 0.0, 1.5, &p3.y0).tol(1e-6, 1e-8);
         c8.user_jac = true;
         c8.jac_storage = ivp::matrix::MatrixStorage::Banded { ml: 2, mu: 2 };
-        v.push((format!("{} lin3 n=3 banded(2,2) Jacobian", mname(m)), p3, c8));
+        v.push((format!("{} lin3 n=3 banded(2,2) Jacobian", mname(m)), p3, c8, 0));
         // scenario 9: a different scalar problem continued from where scenario 0 ends (x0 = 1, y0 = e^-1)
         let p9 = Prob { y0: vec![(-1.0f64).exp()], ..base(Base::Logistic(1.5)) };
         let mut c9 = Cfg::new(m, 1.0, 2.0, &p9.y0).tol(1e-6, 1e-8);
         c9.user_jac = true;
-        v.push((format!("{} logistic n=1 continued from (1, e^-1)", mname(m)), p9, c9));
+        v.push((format!("{} logistic n=1 continued from (1, e^-1)", mname(m)), p9, c9, 0));
+        // scenario 10 / 11: per-component tolerances that share their first entries
+        let p3 = base(Base::Lin3);
+        for (k, at) in [vec![1e-9, 1e-2, 1e-2], vec![1e-9, 1e-9, 1e-9]].into_iter().enumerate() {
+            let mut cv = Cfg::new(m, 0.0, 1.5, &p3.y0);
+            cv.rtol = crate::run::Tol::V(vec![1e-6, 1e-6, 1e-6]);
+            cv.atol = crate::run::Tol::V(at);
+            cv.user_jac = true;
+            v.push((format!("{} lin3 n=3 tolerance vectors ({})", mname(m), if k == 0 { "loose tail" } else { "tight tail" }), p3.clone(), cv, 0));
+        }
+        // scenario 12: a lower-bidiagonal chain whose analytic Jacobian writes only its non-zero entries, in a
+        // band (1,0) that holds nothing else
+        let chain = Prob {
+            name: "chain n=3".into(),
+            n: 3,
+            f: Arc::new(|_t, y, d| {
+                d[0] = -y[0];
+                d[1] = 2.0 * y[0] - 3.0 * y[1];
+                d[2] = y[1] - 0.5 * y[2];
+            }),
+            jac: Some(Arc::new(|_t, _y| vec![-1.0, 0.0, 0.0, 2.0, -3.0, 0.0, 0.0, 1.0, -0.5])),
+            flow: None,
+            y0: vec![1.0, 0.5, 0.25],
+            linear_homogeneous: true,
+        };
+        let mut c12 = Cfg::new(m, 0.0, 1.5, &chain.y0).tol(1e-6, 1e-8);
+        c12.user_jac = true;
+        c12.jac_nonzeros_only = true;
+        c12.jac_storage = ivp::matrix::MatrixStorage::Banded { ml: 1, mu: 0 };
+        v.push((format!("{} chain n=3 banded(1,0), non-zero writes", mname(m)), chain.clone(), c12.clone(), 0));
+        // scenario 13: the same chain in Full storage (still writing only its non-zeros)
+        let mut c13 = c12.clone();
+        c13.jac_storage = ivp::matrix::MatrixStorage::Full;
+        v.push((format!("{} chain n=3 full storage, non-zero writes", mname(m)), chain, c13, 0));
+        // scenario 14 / 15: M y' = f with the full mass [[2,1],[1,3]], and a plain problem of the same size with the
+        // mass storage declared Full (default mass); both only mean something for Radau
+        let p2 = base(Base::Harmonic(1.0));
+        let mut c14 = Cfg::new(m, 0.0, 1.0, &p2.y0).tol(1e-6, 1e-8);
+        c14.user_jac = true;
+        c14.mass_storage = ivp::matrix::MatrixStorage::Full;
+        v.push((format!("{} harmonic n=2 full mass [[2,1],[1,3]]", mname(m)), p2.clone(), c14.clone(), 1));
+        v.push((format!("{} harmonic n=2 mass storage Full, default mass", mname(m)), p2.clone(), c14, 0));
+        // scenario 16 / 17: dense output over [0, 1] (RK4: a hundred steps like scenario 1, differently placed), at
+        // a tight tolerance (BDF: another first step from the same x0)
+        let mut c16 = Cfg::new(m, 0.0, 1.0, &p2.y0).tol(1e-9, 1e-11);
+        c16.user_jac = true;
+        c16.dense = true;
+        v.push((format!("{} harmonic n=2 dense [0,1] tight", mname(m)), p2.clone(), c16.clone(), 0));
+        let mut c17 = c16.clone();
+        c17 = c17.tol(1e-3, 1e-5);
+        v.push((format!("{} harmonic n=2 dense [0,1] loose", mname(m)), p2, c17, 0));
+        // scenario 18: another logistic problem from the initial point of scenario 3 over a span of 1e-7, differenced Jacobian
+        let p18 = base(Base::Logistic(3.0));
+        let c18 = Cfg::new(m, 0.5, 0.5 + 1e-7, &p0.y0).tol(1e-5, 1e-7);
+        v.push((format!("{} logistic(3) n=1 over 1e-7 from the same point", mname(m)), p18, c18, 0));
+        // scenario 19: a run that ends on its step budget (six steps at a loose tolerance over [0, 20])
+        let pb = base(Base::Harmonic(0.2));
+        let mut c19 = Cfg::new(m, 0.0, 20.0, &pb.y0).tol(1e-2, 1e-3);
+        c19.user_jac = true;
+        c19.max_steps = Some(6);
+        v.push((format!("{} harmonic(0.2) n=2 over [0,20], six steps allowed", mname(m)), pb, c19, 0));
     }
     v
 }
 
-fn seq_fp(p: &Prob, c: &Cfg) -> u128 {
-    let r = run(p, c);
+fn seq_run(p: &Prob, c: &Cfg, mass_kind: usize) -> crate::run::Run {
+    let massf = |m: &mut ivp::matrix::Matrix| {
+        m[(0, 0)] = 2.0;
+        m[(0, 1)] = 1.0;
+        m[(1, 0)] = 1.0;
+        m[(1, 1)] = 3.0;
+    };
+    if mass_kind == 1 {
+        crate::run::run_with(p, c, None, Some(&massf))
+    } else {
+        run(p, c)
+    }
+}
+
+fn seq_fp_of(r: &crate::run::Run) -> u128 {
     let mut h = r.st.fp;
     h.s(&r.outcome_name());
     if let Some(s) = r.sol() {
@@ -108,55 +182,246 @@ fn seq_fp(p: &Prob, c: &Cfg) -> u128 {
             h.u(u as u64);
         }
         if let Some((a, b)) = s.sol_span() {
-            if let Ok(v) = s.sol(a + 0.37 * (b - a)) {
-                h.fs(&v);
+            for th in [0.37, 1e-7, 0.93] {
+                if let Ok(v) = s.sol(a + th * (b - a)) {
+                    h.fs(&v);
+                }
             }
         }
     }
     h.as_u128()
 }
 
-/// child mode: `ivpv C12 --seq i j` runs calls i, j, i in this (fresh) process and prints the three fingerprints
+fn seq_fp(p: &Prob, c: &Cfg, mass_kind: usize) -> u128 {
+    seq_fp_of(&seq_run(p, c, mass_kind))
+}
+
+/// the absolute query times of the interleaving stage: 41 points of the common part of both intervals and four
+/// points right after its start
+fn seq_grid(a: &crate::run::Run, b: &crate::run::Run) -> Vec<f64> {
+    let (sa, sb) = match (a.sol().and_then(|s| s.sol_span()), b.sol().and_then(|s| s.sol_span())) {
+        (Some(x), Some(y)) => (x, y),
+        _ => return vec![],
+    };
+    let lo = sa.0.min(sa.1).max(sb.0.min(sb.1));
+    let hi = sa.0.max(sa.1).min(sb.0.max(sb.1));
+    if !(hi > lo) {
+        return vec![];
+    }
+    let mut g: Vec<f64> = [1e-9, 1e-7, 1e-5, 1e-3].iter().map(|e| lo + e * (hi - lo)).collect();
+    g.extend((0..41).map(|k| lo + (k as f64 + 0.3) / 41.0 * (hi - lo)));
+    g
+}
+
+fn seq_answers(r: &crate::run::Run, grid: &[f64]) -> Vec<Vec<u64>> {
+    let s = r.sol().unwrap();
+    grid.iter().map(|&t| s.sol(t).map(|v| v.iter().map(|x| x.to_bits()).collect()).unwrap_or_default()).collect()
+}
+
+/// call j restarted where call i ended: its interval is shifted to the last abscissa of i, and it starts from the last
+/// state of i when the dimensions agree (its own initial state otherwise)
+fn seq_chain_cfg(cj: &Cfg, x: f64, y: &[f64]) -> Cfg {
+    let mut c = cj.clone();
+    let shift = x - cj.x0;
+    c.x0 = x;
+    c.xend = cj.xend + shift;
+    if y.len() == cj.y0.len() && y.iter().all(|v| v.is_finite()) {
+        c.y0 = y.to_vec();
+    }
+    if let Some(te) = &cj.t_eval {
+        c.t_eval = Some(te.iter().map(|t| t + shift).collect());
+    }
+    c
+}
+
+fn hexs(v: &[f64]) -> String {
+    v.iter().map(|x| format!("{:016x}", x.to_bits())).collect::<Vec<_>>().join(",")
+}
+
+/// child mode: `ivpv C12 --seq i j` runs calls i, j, i in this (fresh) process and prints the three fingerprints;
+/// then the two solutions (kept alive) are queried alternately at the same times, and the call j is made once more
+/// from the point where i ended
 pub fn seq_child(i: usize, j: usize) -> i32 {
     let calls = seq_calls();
     let (a, b) = (&calls[i], &calls[j]);
-    let f1 = seq_fp(&a.1, &a.2);
-    let f2 = seq_fp(&b.1, &b.2);
-    let f3 = seq_fp(&a.1, &a.2);
-    println!("SEQ {:032x} {:032x} {:032x}", f1, f2, f3);
+    let ra = seq_run(&a.1, &a.2, a.3);
+    let f1 = seq_fp_of(&ra);
+    let rb = seq_run(&b.1, &b.2, b.3);
+    let f2 = seq_fp_of(&rb);
+    // interleaved queries of two live solutions against the same queries made of each alone
+    let grid = seq_grid(&ra, &rb);
+    let mut inter = 0;
+    if !grid.is_empty() {
+        let alone_a = seq_answers(&ra, &grid);
+        let alone_b = seq_answers(&rb, &grid);
+        let (sa, sb) = (ra.sol().unwrap(), rb.sol().unwrap());
+        inter = 1;
+        for (k, &t) in grid.iter().enumerate() {
+            let qa: Vec<u64> = sa.sol(t).map(|v| v.iter().map(|x| x.to_bits()).collect()).unwrap_or_default();
+            let qb: Vec<u64> = sb.sol(t).map(|v| v.iter().map(|x| x.to_bits()).collect()).unwrap_or_default();
+            if qa != alone_a[k] || qb != alone_b[k] {
+                inter = 2;
+            }
+        }
+    }
+    drop(rb);
+    let r3 = seq_run(&a.1, &a.2, a.3);
+    let f3 = seq_fp_of(&r3);
+    // the continuation
+    let mut chain = String::from("-");
+    if let Some(s) = r3.sol() {
+        if let (Some(&x), Some(y)) = (s.t.last(), s.y.last()) {
+            if x.is_finite() && s.t.len() > 1 {
+                let c = seq_chain_cfg(&b.2, x, y);
+                let f4 = seq_fp(&b.1, &c, b.3);
+                chain = format!("{:032x}@{:016x}@{}", f4, x.to_bits(), hexs(y));
+            }
+        }
+    }
+    println!("SEQ {:032x} {:032x} {:032x} {} {}", f1, f2, f3, inter, chain);
     0
 }
 
-fn seq_spawn(i: usize, j: usize) -> Option<(u128, u128, u128)> {
+/// child mode: `ivpv C12 --chain j xbits ybits,..`: the continuation call alone in a fresh process
+pub fn chain_child(j: usize, xbits: &str, ybits: &str) -> i32 {
+    let calls = seq_calls();
+    let b = &calls[j];
+    let x = f64::from_bits(u64::from_str_radix(xbits, 16).unwrap_or(0));
+    let y: Vec<f64> = ybits.split(',').filter_map(|h| u64::from_str_radix(h, 16).ok()).map(f64::from_bits).collect();
+    let c = seq_chain_cfg(&b.2, x, &y);
+    println!("CHAIN {:032x}", seq_fp(&b.1, &c, b.3));
+    0
+}
+
+#[derive(Clone, Debug)]
+struct SeqOut {
+    f: (u128, u128, u128),
+    inter: u8,
+    /// fingerprint of the continuation in the sequence, and of the same call alone in a fresh process
+    chain: Option<(u128, Option<u128>)>,
+}
+
+fn seq_spawn(i: usize, j: usize) -> Option<SeqOut> {
     let exe = std::env::current_exe().ok()?;
-    let out = std::process::Command::new(exe).arg("C12").arg("--seq").arg(i.to_string()).arg(j.to_string()).output().ok()?;
+    let out = std::process::Command::new(&exe).arg("C12").arg("--seq").arg(i.to_string()).arg(j.to_string()).output().ok()?;
     let txt = String::from_utf8_lossy(&out.stdout).to_string();
     let line = txt.lines().find(|l| l.starts_with("SEQ "))?;
-    let f: Vec<u128> = line.split_whitespace().skip(1).filter_map(|x| u128::from_str_radix(x, 16).ok()).collect();
-    if f.len() == 3 {
-        Some((f[0], f[1], f[2]))
-    } else {
-        None
+    let w: Vec<&str> = line.split_whitespace().skip(1).collect();
+    if w.len() != 5 {
+        return None;
     }
+    let f: Vec<u128> = w[..3].iter().filter_map(|x| u128::from_str_radix(x, 16).ok()).collect();
+    if f.len() != 3 {
+        return None;
+    }
+    let inter: u8 = w[3].parse().ok()?;
+    let chain = if w[4] == "-" {
+        None
+    } else {
+        let parts: Vec<&str> = w[4].split('@').collect();
+        if parts.len() != 3 {
+            return None;
+        }
+        let f4 = u128::from_str_radix(parts[0], 16).ok()?;
+        let o = std::process::Command::new(&exe).arg("C12").arg("--chain").arg(j.to_string()).arg(parts[1]).arg(parts[2]).output().ok()?;
+        let t = String::from_utf8_lossy(&o.stdout).to_string();
+        let alone = t.lines().find(|l| l.starts_with("CHAIN ")).and_then(|l| u128::from_str_radix(l[6..].trim(), 16).ok());
+        Some((f4, alone))
+    };
+    Some(SeqOut { f: (f[0], f[1], f[2]), inter, chain })
 }
 
 /// verdict for the ordered pair (i, j); `alone_j` is the fingerprint of call j as the first call of a fresh process
-fn seq_verdict(i: usize, j: usize, got: Option<(u128, u128, u128)>, alone_j: Option<u128>, calls: &[(String, Prob, Cfg)]) -> Vec<Violation> {
+fn seq_verdict(i: usize, j: usize, got: &Option<SeqOut>, alone_j: Option<u128>, calls: &[(String, Prob, Cfg, usize)]) -> Vec<Violation> {
     let key = format!("seq:{}.{}", i, j);
     let case = json!({"key": key, "first_call": calls[i].0, "second_call": calls[j].0});
     let mut v = vec![];
     match (got, alone_j) {
-        (Some((a1, b2, a3)), Some(bj)) => {
+        (Some(o), Some(bj)) => {
+            let (a1, b2, a3) = o.f;
             if a1 != a3 {
                 v.push(Violation::new(&key, "repeat-after-other-call", format!("the call [{}] gives a different result when it is repeated after the call [{}] in the same process", calls[i].0, calls[j].0), case.clone()));
             }
             if b2 != bj {
                 v.push(Violation::new(&key, "call-after-other-call", format!("the call [{}] gives a different result after the call [{}] than as the first call of a process", calls[j].0, calls[i].0), case.clone()));
             }
+            if o.inter == 2 {
+                v.push(Violation::new(&key, "interleaved-queries", format!("the dense outputs of [{}] and [{}] answer differently when they are queried alternately at the same times than when each is queried alone", calls[i].0, calls[j].0), case.clone()));
+            }
+            match o.chain {
+                Some((f4, Some(alone))) if f4 != alone => {
+                    v.push(Violation::new(&key, "continuation-after-call", format!("the call [{}], restarted at the point where [{}] ended, gives a different result right after that call than alone in a fresh process", calls[j].0, calls[i].0), case.clone()));
+                }
+                Some((_, None)) => v.push(Violation::new(&key, "sequence-crashed", format!("the continuation of [{}] from the end of [{}] did not run to completion alone in a child process", calls[j].0, calls[i].0), case.clone())),
+                _ => {}
+            }
         }
         _ => v.push(Violation::new(&key, "sequence-crashed", format!("the sequence [{}], [{}], [{}] did not run to completion in a child process", calls[i].0, calls[j].0, calls[i].0), case)),
     }
     v
+}
+
+/// one solver object used for two `solve` calls: the second must be the call a fresh object makes
+fn object_reuse(rep: &mut Report) {
+    use crate::env::{Probe, ProbeSolOut};
+    use ivp::methods::{Tolerance, BDF, DOP853, DOPRI5, RADAU, RK23, RK4};
+    let probs = [(base(Base::Harmonic(1.0)), "harmonic"), (base(Base::Lin3), "lin3"), (base(Base::Logistic(2.0)), "logistic")];
+    let spans: [(f64, f64); 4] = [(0.05, 3.0), (3.0, 0.05), (1.0, 1.0), (0.01, 40.0)];
+    for &m in M6.iter() {
+        for (p, pname) in &probs {
+            for (si, &(s1, s2)) in spans.iter().enumerate() {
+                for first_prob in 0..2usize {
+                    let key = format!("reuse:{}:{}:{}:{}", mname(m), pname, si, first_prob);
+                    // the first call of the shared object: the same problem, or another one
+                    let p1 = if first_prob == 0 { p.clone() } else { base(Base::Harmonic(3.0)) };
+                    macro_rules! two {
+                        ($mk:expr, $call:expr) => {{
+                            let shared = $mk;
+                            let fresh = $mk;
+                            let one = |obj: &_, pr: &Prob, xe: f64| {
+                                let f = pr.rhs();
+                                let probe = Probe::new(&f);
+                                let mut so = ProbeSolOut::new(&probe);
+                                let r = crate::util::guarded(|| $call(obj, &probe, &pr.y0, xe, &mut so));
+                                let recs: Vec<(u64, Vec<u64>)> = so.recs.iter().map(|q| (q.x.to_bits(), q.y.iter().map(|v| v.to_bits()).collect())).collect();
+                                drop(so);
+                                let st = probe.state();
+                                let res = match r {
+                                    Ok(Ok(q)) => format!("{:?} h={:016x} {:?} {:?}", q.status, q.h.to_bits(), q.evals, q.steps),
+                                    Ok(Err(e)) => format!("Err({:?})", e),
+                                    Err(pn) => format!("PANIC({})", pn),
+                                };
+                                (st.fp.as_u128(), recs, res)
+                            };
+                            let _ = one(&shared, &p1, s1);
+                            let second = one(&shared, p, s2);
+                            let alone = one(&fresh, p, s2);
+                            (second, alone)
+                        }};
+                    }
+                    let (rt, at) = (Tolerance::Scalar(1e-6), Tolerance::Scalar(1e-8));
+                    let (second, alone) = match m {
+                        Method::RK4 => two!(RK4::builder().build(), |o: &RK4, pb: &Probe, y0: &[f64], xe: f64, so: &mut ProbeSolOut| o.solve(pb, 0.0, y0, xe, xe / 64.0, Some(so))),
+                        Method::RK23 => two!(RK23::builder().build(), |o: &RK23, pb: &Probe, y0: &[f64], xe: f64, so: &mut ProbeSolOut| o.solve(pb, 0.0, y0, xe, rt.clone(), at.clone(), Some(so))),
+                        Method::DOPRI5 => two!(DOPRI5::builder().build(), |o: &DOPRI5, pb: &Probe, y0: &[f64], xe: f64, so: &mut ProbeSolOut| o.solve(pb, 0.0, y0, xe, rt.clone(), at.clone(), Some(so))),
+                        Method::DOP853 => two!(DOP853::builder().build(), |o: &DOP853, pb: &Probe, y0: &[f64], xe: f64, so: &mut ProbeSolOut| o.solve(pb, 0.0, y0, xe, rt.clone(), at.clone(), Some(so))),
+                        Method::RADAU => two!(RADAU::builder().build(), |o: &RADAU, pb: &Probe, y0: &[f64], xe: f64, so: &mut ProbeSolOut| o.solve(pb, 0.0, y0, xe, rt.clone(), at.clone(), Some(so))),
+                        Method::BDF => two!(BDF::builder().build(), |o: &BDF, pb: &Probe, y0: &[f64], xe: f64, so: &mut ProbeSolOut| o.solve(pb, 0.0, y0, xe, rt.clone(), at.clone(), Some(so))),
+                    };
+                    rep.evaluations += 3;
+                    rep.validated += 1;
+                    *rep.tags.entry("solver-object-reuse".into()).or_insert(0) += 1;
+                    if second != alone {
+                        let what = if second.2 != alone.2 { format!("{} vs {}", second.2, alone.2) } else { format!("{} vs {} accepted steps, or other abscissae/states", second.1.len(), alone.1.len()) };
+                        rep.violations.push(
+                            Violation::new(&key, "solver-object-reuse", format!("{}: the second solve() of one solver object ({} over [0,{}] after {} over [0,{}]) differs from the same call of a fresh object: {}", mname(m), pname, s2, if first_prob == 0 { *pname } else { "harmonic(3)" }, s1, what), json!({"key": key}))
+                                .with("method", mname(m)),
+                        );
+                    }
+                }
+            }
+        }
+    }
 }
 
 pub fn run_check(replay: Option<Value>) -> i32 {
@@ -167,7 +432,7 @@ pub fn run_check(replay: Option<Value>) -> i32 {
             let ij: Vec<usize> = rest.split('.').filter_map(|x| x.parse().ok()).collect();
             let calls = seq_calls();
             if ij.len() == 2 && ij[0] < calls.len() && ij[1] < calls.len() {
-                let vs = seq_verdict(ij[0], ij[1], seq_spawn(ij[0], ij[1]), seq_spawn(ij[1], ij[1]).map(|f| f.0), &calls);
+                let vs = seq_verdict(ij[0], ij[1], &seq_spawn(ij[0], ij[1]), seq_spawn(ij[1], ij[1]).map(|o| o.f.0), &calls);
                 for v in &vs {
                     println!("replay: VIOLATED [{}]: {}", v.sig["check"], v.msg);
                 }
@@ -177,6 +442,20 @@ pub fn run_check(replay: Option<Value>) -> i32 {
                 return if vs.is_empty() { 0 } else { 1 };
             }
             return 2;
+        }
+    }
+    if let Some(o) = &only {
+        if o.starts_with("reuse:") {
+            let mut r2 = Report::new("C12", "model_checking");
+            object_reuse(&mut r2);
+            let vs: Vec<&Violation> = r2.violations.iter().filter(|v| v.key == *o).collect();
+            for v in &vs {
+                println!("replay: VIOLATED [{}]: {}", v.sig["check"], v.msg);
+            }
+            if vs.is_empty() {
+                println!("replay: property holds on this case");
+            }
+            return if vs.is_empty() { 0 } else { 1 };
         }
     }
     let thorough = is_thorough();
@@ -540,18 +819,31 @@ pub fn run_check(replay: Option<Value>) -> i32 {
         let n = calls.len();
         let pairs: Vec<(usize, usize)> = (0..n).flat_map(|i| (0..n).map(move |j| (i, j))).collect();
         let res = crate::util::par_map(pairs.len(), |k| seq_spawn(pairs[k].0, pairs[k].1));
-        let alone: Vec<Option<u128>> = (0..n).map(|j| res[j * n + j].map(|f| f.0)).collect();
+        let alone: Vec<Option<u128>> = (0..n).map(|j| res[j * n + j].as_ref().map(|o| o.f.0)).collect();
         let mut distinct = std::collections::HashSet::new();
+        let (mut inter, mut chains) = (0u64, 0u64);
+        let mut distinct_chain = std::collections::HashSet::new();
         for (k, (i, j)) in pairs.iter().enumerate() {
             rep.evaluations += 1;
             rep.validated += 2;
-            if let Some(f) = res[k] {
-                distinct.insert(f.1);
+            if let Some(o) = &res[k] {
+                distinct.insert(o.f.1);
+                if o.inter > 0 {
+                    inter += 1;
+                }
+                if let Some((f4, _)) = o.chain {
+                    chains += 1;
+                    distinct_chain.insert(f4);
+                }
             }
-            rep.violations.extend(seq_verdict(*i, *j, res[k], alone[*j], &calls));
+            rep.violations.extend(seq_verdict(*i, *j, &res[k], alone[*j], &calls));
         }
         *rep.tags.entry("call-sequences".into()).or_insert(0) += pairs.len() as u64;
         *rep.tags.entry("call-sequence-distinct-results".into()).or_insert(0) += distinct.len() as u64;
+        *rep.tags.entry("interleaved-dense-pairs".into()).or_insert(0) += inter;
+        *rep.tags.entry("continuations".into()).or_insert(0) += chains;
+        *rep.tags.entry("continuation-distinct-results".into()).or_insert(0) += distinct_chain.len() as u64;
+        object_reuse(&mut rep);
     }
     if only.is_some() {
         for v in &rep.violations {
@@ -569,6 +861,10 @@ pub fn run_check(replay: Option<Value>) -> i32 {
     rep.require("run-ended-by-the-stiffness-test", 2);
     rep.require("call-sequences", 500);
     rep.require("call-sequence-distinct-results", 20);
+    rep.require("interleaved-dense-pairs", 100);
+    rep.require("continuations", 5000);
+    rep.require("continuation-distinct-results", 500);
+    rep.require("solver-object-reuse", 100);
     rep.rule = "for every lattice point the plain run and all 8 subsets of {t_eval, dense_output, non-terminal events} are run twice; oracle: identical 128-bit fingerprint of every non-Jacobian RHS call (time and state bits: the complete record of the integration), identical statistics, identical accepted steps and states when no t_eval is given, final state, repeatability; runs of more than 1.3e5 accepted steps with {dense}, {t_eval}, {t_eval dense}; distinct = distinct plain-run fingerprints".into();
     rep.finish()
 }
